@@ -1,16 +1,20 @@
 """C16 – SVG path text round-trips and parses per the path grammar."""
 from .common import *
 import itertools
+import re
 
 RULE = ('(a) abstract command sequences (M L H V C S Q T A Z, absolute/relative) rendered in >= 4 random spellings each (implicit repetition, separators '
         'space / comma / none where legal, signs incl. "+", leading "." , exponents): all spellings must give the identical element list; (b) every string '
         'over an 18-symbol command/number alphabet up to length 3 (quick) / 4 (thorough), random strings over the full alphabet up to 64 bytes, valid strings '
         'with one mutation, multi-byte UTF-8 inserts: implementation == Lean model bit-for-bit (element lists, error kinds), never PANIC; (c) random paths '
         'with -0, 5e-324, 1e+-300, 17-digit values: to_svg -> from_svg gives the identical elements (ClosePath followed by MoveTo/end) resp. segments, and the '
-        'LEAN parser run on the implementation\'s text returns the same path; (d) arcs: Arc::from_svg_arc vs the Float model and the end-point / sweep / '
+        'LEAN parser run on the implementation\'s text returns the same path; the same on element lists built without from_vec (empty, no initial MoveTo -> '
+        'UninitializedPath, consecutive ClosePaths, ClosePath + drawing element; integers up to 1e23, subnormals, any finite bit pattern) with (i) the MODEL '
+        'writer svgWrite, handed the numerals of the implementation\'s text, writing exactly the implementation\'s bytes and (ii) every numeral of the form '
+        '-?digits(.digits)? and denoting (Python float(), correctly rounded) exactly the bits of its coordinate; (d) arcs: Arc::from_svg_arc vs the Float model and the end-point / sweep / '
         'large-arc conditions. non-trivial = distinct input string / path')
 KERNEL_DEPS = [r'PathSeg\.(start|end|as_path_el)']
-UNPROVED = ['arc end point / sweep / large-arc correctness (trigonometry): compared', 'the number printer (Rust Display for f64) is assumed to round-trip through parse']
+UNPROVED = ['arc end point / sweep / large-arc correctness (trigonometry): compared', 'the number printer (Rust Display for f64) is a parameter of the model writer svgWrite; that its output is a valid numeral denoting the coordinate is an assumption of the theorems, checked per numeral by the writer stratum']
 ASSUMPTIONS = ['a number token denotes its exact decimal value, correctly rounded (= Rust str::parse::<f64>)']
 MAKERS = {}
 
@@ -138,29 +142,41 @@ def els_str(els):
     return ' '.join(el[0] + (' ' + ' '.join(H(*p) for p in el[1:]) if len(el) > 1 else '') for el in els)
 
 
-@maker(MAKERS)
-def roundtrip(els):
-    els = [tuple(tuple(x) if isinstance(x, list) else x for x in el) for el in els]
-    line = f'svg.write {els_str(els)}'
+def norm_els(els):
+    return [tuple(tuple(x) if isinstance(x, list) else x for x in el) for el in els]
+
+
+def judge_write_parse(els, text_hex, res):
+    """(iii) what from_svg must make of the text to_svg wrote for `els`: the identical elements if every ClosePath is followed by a MoveTo or the
+    end, the same segments otherwise.  A non-empty list that does not start with MoveTo is not a path from_svg can produce: UninitializedPath."""
+    text = bytes.fromhex(text_hex[1:])
+    if els and els[0][0] != 'M':
+        return None if res == 'err UninitializedPath' else f'text of a path without initial MoveTo {text!r}: expected UninitializedPath, got {res[:120]}'
+    if not res.startswith('ok'):
+        return f'from_svg rejects the text written by to_svg: {text!r} -> {res}'
     want = 'ok ' + els_str(els)
     z_ok = all(els[k + 1][0] == 'M' for k, e in enumerate(els[:-1]) if e[0] == 'Z')
+    if z_ok:
+        if res.split() != want.split():
+            return f'write -> parse changes the elements: {text!r} -> {res[:200]}'
+    else:
+        # same segments: compare after dropping MoveTo elements that restate the current point (inserted after ClosePath)
+        if segs_of(res[3:]) != segs_of(els_str(els)):
+            return f'write -> parse changes the segments: {text!r}'
+    return None
+
+
+@maker(MAKERS)
+def roundtrip(els):
+    els = norm_els(els)
+    line = f'svg.write {els_str(els)}'
 
     def judge(o):
         i = o['I'][0]
         if engine_error(i):
             return 'engine error ' + i
         text, res = i.split(' | ')
-        if not res.startswith('ok'):
-            return f'from_svg rejects the text written by to_svg: {bytes.fromhex(text[1:])!r} -> {res}'
-        if z_ok:
-            if res.split() != want.split():
-                return f'write -> parse changes the elements: {bytes.fromhex(text[1:])!r} -> {res[:200]}'
-        else:
-            # same segments: compare after dropping MoveTo elements that restate the current point (inserted after ClosePath)
-            got = res.split()
-            if segs_of(res[3:]) != segs_of(els_str(els)):
-                return f'write -> parse changes the segments: {bytes.fromhex(text[1:])!r}'
-        return None
+        return judge_write_parse(els, text, res)
     c = Case(line, 'I', judge, 'roundtrip', 'oracle')
 
     def followup(o):
@@ -170,6 +186,81 @@ def roundtrip(els):
         return fc
     c.followup = followup
     return c
+
+
+# ---- the writer (tag C16W): BezPath::to_svg / write_to against the model `svgWrite` (lean/Kurbo/SvgWrite.lean)
+
+NUMERAL = re.compile(r'-?[0-9]+(\.[0-9]+)?\Z')     # what Display for f64 prints for a finite number; a subset of what get_number accepts (no exponent)
+
+
+def numerals_of(text):
+    """the numerals of a to_svg text in order of appearance: the maximal runs of bytes that are not a command letter, a comma or a space"""
+    return [t for t in re.split(r'[MLQCZ, ]+', text) if t]
+
+
+def coords_of(els):
+    return [x for el in els for p in el[1:] for x in p]
+
+
+@maker(MAKERS)
+def writer(els):
+    """to_svg on an arbitrary element list (built with BezPath::new + extend: no MoveTo assertion); (ii) + (iii) here, (i) in the follow-up"""
+    els = norm_els(els)
+    lines = [f'svg.to_svg {els_str(els)}'.rstrip(), f'svg.to_svg_parse {els_str(els)}'.rstrip()]
+
+    def judge(o):
+        i0, i1 = o['I']
+        if engine_error(i0, i1) or not i0.startswith('x') or ' | ' not in i1:
+            return f'engine error {i0[:80]} / {i1[:80]}'
+        text_hex, res = i1.split(' | ')
+        if text_hex != i0:
+            return 'to_svg gives two different texts for the same path'
+        try:
+            text = bytes.fromhex(i0[1:]).decode('ascii')
+        except (ValueError, UnicodeDecodeError):
+            return f'to_svg text is not ASCII: {i0[:80]}'
+        # (ii) every numeral is in the grammar and denotes exactly (bit for bit) the coordinate at its position
+        nums, coords = numerals_of(text), coords_of(els)
+        if len(nums) != len(coords):
+            return f'{len(coords)} coordinates but {len(nums)} numerals in {text[:120]!r}'
+        for t, x in zip(nums, coords):
+            if not NUMERAL.match(t):
+                return f'numeral {t[:40]!r} (for {x!r}) is not of the form -?digits(.digits)?'
+            if f2h(float(t)) != f2h(x):
+                return f'numeral {t[:40]!r} denotes {float(t)!r} (bits {f2h(float(t))}), the coordinate is {x!r} (bits {f2h(x)})'
+        # (iii)
+        return judge_write_parse(els, text_hex, res)
+    c = Case(lines, 'I', judge, 'writer', 'oracle')
+
+    def followup(o):
+        text_hex, res = o['I'][1].split(' | ')
+        return writer_model(els, text_hex, res)
+    c.followup = followup
+    return c
+
+
+@maker(MAKERS)
+def writer_model(els, text_hex, res):
+    """(i) the model writer, handed the crate's numerals, writes exactly the crate's bytes; and the model parser reads them like the crate"""
+    els = norm_els(els)
+    text = bytes.fromhex(text_hex[1:]).decode('ascii')
+    nums = numerals_of(text)
+    lines = [f'svg.write {len(nums)} ' + ''.join(hx(t) + ' ' for t in nums) + '| ' + els_str(els), f'svg.parse {text_hex}']
+
+    def judge(o):
+        for eng in 'FR':
+            w, p = o[eng]
+            if w != text_hex:
+                if w.startswith('x'):
+                    return f'model@{eng} svgWrite != to_svg: model={bytes.fromhex(w[1:])[:160]!r} impl={text[:160]!r}'
+                return f'model@{eng} svgWrite: {w[:80]}'
+            if p.startswith('PANIC') or engine_error(p):
+                return f'model@{eng} parser on the written text: {p[:80]}'
+            same = p.split() == res.split() if eng == 'F' else cmp_exact(p, res)
+            if not same:
+                return f'model@{eng} parser != from_svg on the written text {text[:120]!r}: model={p[:160]} impl={res[:160]}'
+        return None
+    return Case(lines, 'FR', judge, 'writer-model', 'corr-F')
 
 
 def segs_of(s):
@@ -204,6 +295,8 @@ def svg_arc(fr, to, radii, rot, la, sw):
         if engine_error(i, f):
             return f'engine error {i} / {f}'
         if i == 'none':
+            if min(abs(radii[0]), abs(radii[1])) > 1e-4 and (fr[0] != to[0] or fr[1] != to[1]):
+                return f'an arc with radii {radii} from {fr} to the DIFFERENT point {to} was replaced by a straight line (from_svg_arc = None)'
             return None if f == 'none' else f'impl none, model {f}'
         v = floats_of(i)
         cx, cy, rx, ry, st, swp, xr = v
@@ -223,7 +316,8 @@ def svg_arc(fr, to, radii, rot, la, sw):
         if not cmp_rel(i, f, 1e-7, sc):
             return f'CORR impl != model@Float impl={i} model={f}'
         return None
-    return Case(line, 'IF', judge, 'arc', 'oracle')
+    near = math.hypot(fr[0] - to[0], fr[1] - to[1]) <= 1e-3 * max(abs(radii[0]), abs(radii[1]))
+    return Case(line, 'IF', judge, 'arc-near-coincident' if near else 'arc', 'oracle')
 
 
 ALPHA18 = ['M', 'm', 'L', 'h', 'C', 's', 'Q', 'T', 'a', 'Z', '0', '1', '.', '-', '+', 'e', ',', ' ']
@@ -233,6 +327,59 @@ FULL = 'MmLlHhVvCcSsQqTtAaZz0123456789+-.,eE \t\n'
 def special_float(rng):
     return rng.choice([0.0, -0.0, 5e-324, 1e-300, -1e300, 1e300, 0.1, 1 / 3.0, 123456789.12345678, 2.2250738585072014e-308, 1.7976931348623157e308,
                        rng.uniform(-1e3, 1e3), rng.uniform(-1, 1) * 10.0 ** rng.randint(-300, 300), float(rng.randint(-99, 99))])
+
+
+def writer_float(rng):
+    """coordinates for the writer stratum: integers (small, beyond 2^53, powers of ten around the places where other printers switch to exponents), negative
+    zero, subnormals, the extremes of the range, short and 17-digit decimals"""
+    r = rng.random()
+    if r < 0.25:
+        return special_float(rng)
+    if r < 0.40:
+        return float(rng.choice([0, 1, -1, 7, 10, 100, -1000, 2 ** 31, 2 ** 53, 2 ** 53 + 2, -(2 ** 63), 10 ** 15, 10 ** 16, 10 ** 17, 10 ** 21, 10 ** 22, 10 ** 23,
+                                 rng.randint(-10 ** 6, 10 ** 6), rng.randint(-10 ** 18, 10 ** 18)]))
+    if r < 0.55:     # subnormals and the neighbourhood of the smallest normal
+        return rng.choice([-1, 1]) * h2f('%016x' % rng.choice([1, 2, 3, rng.randint(1, (1 << 52) - 1), (1 << 52) - 1, 1 << 52, (1 << 52) + 1]))
+    if r < 0.65:
+        return rng.choice([-1, 1]) * 10.0 ** rng.randint(-323, 308)
+    if r < 0.75:
+        return rng.choice([-0.0, 0.0, 1e-5, 1e-7, 0.001, 0.3, 2.5, -0.75, 1e16 + 2, 9007199254740993.0, 4.35, 0.1 + 0.2, 5e-324, -5e-324, 1.7976931348623157e308, -1.7976931348623157e308])
+    if r < 0.85:     # any finite bit pattern
+        return h2f('%016x' % (rng.getrandbits(1) << 63 | rng.randint(0, 0x7fe) << 52 | rng.getrandbits(52)))
+    return rng.randint(-64, 64) / 4.0
+
+
+def writer_els(rng):
+    """element lists for the writer stratum: mostly well-formed paths, but also the empty list, lists that do not start with a MoveTo, consecutive
+    ClosePaths, ClosePath followed by a drawing element"""
+    g = lambda: (writer_float(rng), writer_float(rng))
+    mk = lambda k: (k,) + tuple(g() for _ in range({'M': 1, 'L': 1, 'Q': 2, 'C': 3, 'Z': 0}[k]))
+    r = rng.random()
+    if r < 0.03:
+        return []
+    if r < 0.13:      # no initial MoveTo
+        return [mk(rng.choice('LQCZ'))] + [mk(rng.choice('MLQCZ')) for _ in range(rng.randint(0, 4))]
+    els = [mk('M')]
+    for _ in range(rng.randint(0, 9)):
+        k = rng.choice('LLQCZZM')
+        els.append(mk(k))
+        if k == 'Z':
+            t = rng.random()
+            if t < 0.3:
+                els.append(mk('Z'))                 # consecutive ClosePaths
+            elif t < 0.6:
+                els.append(mk(rng.choice('LQC')))   # ClosePath followed by a drawing element
+            elif t < 0.8:
+                els.append(mk('M'))
+    return els
+
+
+WRITER_FIXED = [
+    [], [('M', (0.0, -0.0))], [('Z',)], [('L', (1.0, 2.0))], [('M', (1.0, 2.0)), ('Z',), ('Z',)], [('M', (1.0, 2.0)), ('L', (3.0, 4.0)), ('Z',), ('L', (5.0, 6.0))],
+    [('M', (1e300, 1e-300)), ('L', (-1e300, -1e-300))], [('M', (5e-324, -5e-324)), ('Q', (2.2250738585072014e-308, 2.225073858507201e-308), (1.7976931348623157e308, -1.7976931348623157e308))],
+    [('M', (1.0, 2.0)), ('M', (3.0, 4.0)), ('C', (0.1, 0.2), (0.30000000000000004, 1e21), (1e22, 123456789.125)), ('Z',), ('M', (0.0, 0.0))],
+    [('M', (1.0, 2.0)), ('Z',), ('Q', (1.0, 1.0), (2.0, 2.0)), ('Z',), ('C', (1.0, 1.0), (2.0, 2.0), (3.0, 3.0))], [('Q', (1.0, 1.0), (2.0, 2.0)), ('M', (1.0, 1.0))],
+]
 
 
 def _generate(rng, tier):
@@ -271,9 +418,21 @@ def _generate(rng, tier):
         # (d) arcs
         g = lambda: rng.uniform(-50, 50)
         yield svg_arc([g(), g()], [g(), g()], [10.0 ** rng.uniform(-3, 3), 10.0 ** rng.uniform(-3, 3)], rng.uniform(-7, 7), rng.randint(0, 1), rng.randint(0, 1))
+        # arcs whose end points nearly coincide (chord 1e-9 .. 1e-3 of the radius, but not equal): with the large-arc flag almost a full ellipse
+        f0 = [g(), g()] if rng.random() < 0.5 else [rng.randint(-8, 8) / 4.0, rng.randint(-8, 8) / 4.0]
+        rr = 10.0 ** rng.uniform(-2.5, 2)
+        dl, da = rr * 10.0 ** rng.uniform(-9, -3), rng.uniform(0, 2 * math.pi)
+        t0 = [f0[0] + dl * math.cos(da), f0[1] + dl * math.sin(da)]
+        if t0 != f0:
+            yield svg_arc(f0, t0, [rr, rr * rng.choice([1.0, rng.uniform(0.3, 3)])], rng.uniform(-7, 7), rng.randint(0, 1), rng.randint(0, 1))
     for s in ['m1 1 +2 3', 'M0 0Q1 1 2 0S4 1 5 0', 'M0 0C1 1 2 1 3 0T6 0', 'M0 0L1 0ZT2 2', 'M1 1 Z 2 2', 'M 100 100 A 25 25 0 1 0 -25 25 z', 'M3.5 8a.5.5 0 01.5-.5h8a.5.5 0 010 1H4a.5.5 0 01-.5-.5z',
               'L1 1', 'M', 'M1', 'M1,', 'M1 2 X', 'M1 2 L', 'M1 2 L3', 'M1e 2', 'M1e+ 2', 'M. 2', 'M-. 2', 'M1 2 é', '', '   ', ',', 'M1 2,', 'M1 2 , 3 4', 'z', 'Z1 2']:
         yield parse_corr(hx(s), 'hand-picked')
+    # writer stratum (C16W) – kept last so that the cases above are the same as before for a given seed
+    for els in WRITER_FIXED:
+        yield writer(els)
+    for _ in range(600 if tier == 'quick' else 20000):
+        yield writer(writer_els(rng))
 
 
 def svg_text_of(line):
